@@ -153,7 +153,7 @@ def _check_not_null_cut(R, exf):
             R.violation("C06.admit", "extract|cut-unconditional", "the NOT NULL cut in extract() is not conditioned on the value being NULL",
                         [exf.loc(sw)])
             continue
-        good, bad = PR.all_paths_hit(exf, not_nullable_edge, clears)
+        good, bad = PR.all_paths_hit_flags(exf, not_nullable_edge, clears)
         if not good:
             ok_all = False
             R.violation("C06.admit", "extract|cut-escapes",
